@@ -19,7 +19,8 @@ EXPLANATION = ("Necessary structural clauses of C06 (not the absence of every pa
                "check at all); (R5) everything reachable from the CRC-less header parse contains no explicit panic, unwrap or expect; "
                "(R6) subtractions on file-derived offsets/sizes are dominated by the matching comparison. Cells that fail on the pinned "
                "tree are genuine defects listed one by one in known_findings.json; any other cell failing is a new violation."
-               " (R3 cell assert_slice_crc) every slice index on the CRC path, taken also when damage has been detected, is bounded by the length of the slice it indexes; (R5 arith) no unguarded panicking arithmetic on values parsed before any CRC was verified.")
+               " (R3 cell assert_slice_crc) every slice index on the CRC path, taken also when damage has been detected, is bounded by the length of the slice it indexes; (R5 arith) no unguarded panicking arithmetic on values parsed before any CRC was verified."
+               ' Added later: (R8) no statically resolved call cycle in code that reads files; (R9) under block_check = Crc32 every path of Source::cut verifies (= C05-R2); (R10) the error of a block parse ends the operation (no error arm that goes on or spins).')
 ASSUMPTIONS = ["compiler-inserted bounds checks after a successful length check are not counted", "decompression libraries return Err (not panic) on damaged streams",
                "rustc MIR construction and trait resolution; call graph over-approximates dynamic dispatch"]
 
